@@ -23,6 +23,12 @@ theorem not_caught_of_uncaught {cfg : Cfg} {g : G} {e : Exc} (h : Uncaught cfg g
   unfold Caught; unfold Uncaught at h
   rcases h with h | h | h <;> simp [h]
 
+/-- the code as it is tests `onerror is not None`: every callable that was passed is called, whatever
+    its truth value -/
+theorem onerrorToCall_generated (cfg : Cfg) : onerrorToCall Gen.onerrorTest cfg = cfg.onerror := by
+  unfold onerrorToCall
+  cases cfg.onerror <;> rfl
+
 theorem exitCore_none (logF) (cfg : Cfg) (d : Nat) (g : G) :
     exitCore logF cfg d none g = (.propagate, g) := by
   simp [exitCore, Gen.exitTests, fires]
@@ -49,7 +55,7 @@ theorem exitCore_caught (logF) (cfg : Cfg) (d : Nat) (e : Exc) (g : G) (h : Caug
   have hany : Gen.exitTests.any (fires cfg (some e) g) = false := by
     simp [Gen.exitTests, fires, hf, hm, hx]
   unfold exitCore
-  rw [hany]
+  rw [hany, onerrorToCall_generated]
   simp only [Bool.false_eq_true, if_false, Gen.exitReturn]
   generalize logF cfg.level d e { g with flag := true } = r
   obtain ⟨lr, g2⟩ := r
